@@ -39,7 +39,12 @@ func runC07(t *vs.Tape, cfg map[string]string) (res vs.Result) {
 	simdisk.SetCurrent(disk)
 	defer simdisk.SetCurrent(nil)
 	tu := &simdisk.Tuning{MemTableSize: 4 << 20, L0CompactionThreshold: 4}
-	bg := t.Chance("tune.bg", 1, 5)
+	bulkDen := 30
+	if cfg["tier"] != "thorough" {
+		bulkDen = 60
+	}
+	bulkScript := cfg["bulk"] == "always" || (cfg["bulk"] != "never" && t.Chance("c07.bulkscript", 1, bulkDen))
+	bg := !bulkScript && t.Chance("tune.bg", 1, 5)
 	if bg {
 		tu = drawTuning(t)
 	}
@@ -48,7 +53,7 @@ func runC07(t *vs.Tape, cfg map[string]string) (res vs.Result) {
 	tornSeed := uint64(t.Intn(1<<16, "torn.seed"))
 	tornK := 1 + t.Intn(2, "torn.k")
 
-	g := &genCtx{swarm: swarmWeights(t, true)}
+	g := &genCtx{swarm: swarmWeights(t, true), quick: cfg["tier"] != "thorough"}
 	nOps := 1 + t.Weighted("nops", 3, 4, 4, 3, 2, 2, 1, 1, 1, 1)
 	m := newStoreModel()
 	base := disk.Seq()
@@ -63,7 +68,27 @@ func runC07(t *vs.Tape, cfg map[string]string) (res vs.Result) {
 	hist = append(hist, histOp{desc: "Open()", kind: kOpen, inv: inv, ret: disk.Seq(), before: m.clone(), after: m.clone()})
 	e := &storeEnv{disk: disk, s: s, m: m, c: c}
 	var trace []string
+	// A fraction of the runs is a scripted bulk history: a few ordinary
+	// mutations, one bulk load that puts the number of live signatures on or
+	// next to a 1000-entry chunk boundary, an index rebuild, one more mutation.
+	var script []opKind
+	if bulkScript {
+		for k := t.Intn(3, "bulk.pre"); k > 0; k-- {
+			script = append(script, opAdd)
+		}
+		script = append(script, opBulkAdd, opRebuild)
+		if t.Chance("bulk.post", 1, 2) {
+			script = append(script, opKind(t.Weighted("bulk.postop", 3, 1, 2, 1, 3)))
+		}
+		nOps = len(script)
+		c.Inc("runs_bulk_script")
+	}
 	for i := 0; i < nOps; i++ {
+		if script != nil {
+			w := make([]int, int(opBulkAdd)+1)
+			w[int(script[i])] = 1
+			g.swarm = w
+		}
 		op := genOp(t, g)
 		trace = append(trace, op.String())
 		h := histOp{desc: op.String(), kind: op.Kind, before: e.m.clone(), mutation: isMutation(op.Kind)}
@@ -98,7 +123,27 @@ func runC07(t *vs.Tape, cfg map[string]string) (res vs.Result) {
 	}
 	images := 0
 	inflightImages := 0
+	// Crash points are enumerated exhaustively; only for bulk histories (thousands
+	// of signatures, every image costs ~50 ms) they are thinned to at most ~90,
+	// always keeping the boundaries of every API call.
+	keep := map[int]bool{}
+	thin := bulkScript && len(log)-base > 90
+	if thin {
+		for _, h := range hist {
+			for _, q := range []int{h.inv, h.inv + 1, h.ret - 1, h.ret, h.ret + 1} {
+				keep[q] = true
+			}
+		}
+		sc := &simdisk.SeedChooser{S: tornSeed + 17}
+		for len(keep) < 90 {
+			keep[base+sc.Intn(len(log)-base+1, "thin")] = true
+		}
+		c.Inc("runs_crash_points_thinned")
+	}
 	for q := base; q <= len(log); q++ {
+		if thin && !keep[q] {
+			continue
+		}
 		// classify q
 		var fl *histOp
 		cur := newStoreModel()
